@@ -17,6 +17,7 @@ import numpy as np
 from ..models import guppi
 from ..models import voltage as mv
 from ..core import InjectedCallbackError, InjectedInterrupt
+from ..core import gen_seed
 
 WINDOWS = ["hamming", "hann", "boxcar", "blackman"]
 
@@ -56,7 +57,7 @@ def gen_antenna(rng, array=None, dyadic=None):
         array = rng.random() < 0.3
     pols = rng.choice([1, 2, 2])
     spec = {"kind": "array" if array else "single", "fs": fs, "fch1": fch1, "ascending": ascending,
-            "t_start": t_start, "seed": rng.randrange(1 << 30), "pols": pols, "dyadic": dyadic}
+            "t_start": t_start, "seed": gen_seed(rng), "pols": pols, "dyadic": dyadic}
     if array:
         n_ant = rng.choice([1, 2, 2, 3])
         spec["n_ant"] = n_ant
